@@ -172,12 +172,31 @@ def judge_c12(c, d, rep, tab, case, stats):
             viol.append((f"N-best entry {k}: hypothesis {b['hyp']!r} is not the word sequence {words!r} of its path", True))
         segs = d["BX"].get(k, [])
         exp = [(N[i]["word"], N[i]["sf"], (N[p[x + 1]]["sf"] - 1) if x + 1 < len(p) else N[i]["lef"]) for x, i in enumerate(p)]
-        if segs != exp:
+        if k < 64 and segs != exp:      # the harness dumps the segmentations of the first 64 entries
             viol.append((f"N-best entry {k}: segmentation {segs[:4]} differs from its path {exp[:4]}", True))
     if d["B"]:
         inc("nbest:entries", len(d["B"]))
-        if d.get("BN", {}).get("rejected", 0) > 0:
+        bn = d.get("BN", {})
+        if bn.get("rejected", 0) > 0:
             inc("nbest:requests-with-agenda-rejections")
+        if bn.get("more") == 0:
+            inc("nbest:lists-read-to-exhaustion")
+        stats["nbest:longest-list-read"] = max(stats.get("nbest:longest-list-read", 0), len(d["B"]))
+        stats["nbest:largest-agenda-on-the-real-code"] = max(stats.get("nbest:largest-agenda-on-the-real-code", 0), bn.get("maxnpath", 0))
+        if bn.get("more") == 0:
+            # the list was read to its end: fewer entries than the lattice has paths from the frame-0 nodes means that the
+            # MAX_PATHS truncation of the agenda was hit on the real code and dropped results
+            cnt = {}
+
+            def npaths(i):
+                if i not in cnt:
+                    cnt[i] = 1 if i == e else sum(npaths(L[j]["dst"]) for j in exits[i])
+                return cnt[i]
+            total = sum(npaths(i) for i, n in enumerate(N) if n["sf"] == 0)
+            if len(d["B"]) < total:
+                inc("nbest:exhausted-lists-where-MAX_PATHS-truncation-dropped-results")
+            elif len(d["B"]) > total:
+                viol.append((f"decoder_nbest yields {len(d['B'])} entries, the lattice has only {total} paths from the frame-0 nodes to the end", True))
         seeds = [rem(i) for i, n in enumerate(N) if n["sf"] == 0 and rem(i) is not None]
         if seeds and d["B"][0]["score"] != max(seeds):
             viol.append((f"first N-best score {d['B'][0]['score']} is not the best score {max(seeds)} from the frame-0 nodes", True))
@@ -270,6 +289,40 @@ def judge_c12(c, d, rep, tab, case, stats):
             inc("posterior:links", nl)
             stats["posterior:max-abs-deviation-from-exact"] = max(stats.get("posterior:max-abs-deviation-from-exact", 0.0), round(worst, 3))
             stats["posterior:largest-bound-used"] = max(stats.get("posterior:largest-bound-used", 0.0), round(wbound, 1))
+    # ---- history of further calls on the same lattice: every pass must reproduce the first one (which was
+    # judged above), whatever was called, repeated or abandoned in between
+    if d.get("hist_ops") and "P" in d and d.get("R") and "Q" in d:
+        nl = len(L)
+        seq = ",".join(h["op"] for h in d["hist_ops"])
+        first = dict(S=[d["R"][j]["path_scr"] for j in range(nl)], V=[d["R"][j]["prev"] for j in range(nl)],
+                     A=[d["R"][j]["alpha"] for j in range(nl)], E=[d["R"][j]["beta"] for j in range(nl)])
+        for h in d["hist_ops"]:
+            op, where = h["op"], f"call {h['step']} `{h['op']}` of the history `bestpath,posterior,{seq}` on one lattice"
+            inc("history:" + {"b": "bestpath", "p": "posterior", "t": "abandoned-traversal", "r": "abandoned-reverse-traversal", "n": "abandoned-nbest"}[op[0]])
+            if op[0] == "b":
+                if "best" not in h:
+                    viol.append((f"{where}: no result", True))
+                    continue
+                if h["best"] != d["P"]["best"] or h["score"] != d["P"]["score"]:
+                    viol.append((f"{where}: lattice_bestpath returns link {h['best']} score {h['score']}, the first call returned link {d['P']['best']} score {d['P']['score']} (the maximum)", True))
+                elif h["HS"] != first["S"] or h["HV"] != first["V"]:
+                    viol.append((f"{where}: path scores / best_prev differ from the first lattice_bestpath", True))
+                if h["norm"] != d["P"]["norm"] or h["HA"] != first["A"]:
+                    viol.append((f"{where}: alphas / normaliser ({h['norm']}) differ from the first forward pass ({d['P']['norm']})", True))
+            elif op[0] == "p":
+                if "post" not in h:
+                    viol.append((f"{where}: no result", True))
+                    continue
+                if h["HE"] != first["E"]:
+                    k = next(i for i in range(nl) if i >= len(h["HE"]) or h["HE"][i] != first["E"][i])
+                    viol.append((f"{where}: beta of link {k} is {h['HE'][k] if k < len(h['HE']) else None}, the first lattice_posterior (judged against the exact "
+                                 f"values) gave {first['E'][k]} — link posteriors / backward total no longer within the rounding bound", True))
+                if h["post"] != d["Q"]["post"] or h["norm"] != d["Q"]["norm"]:
+                    viol.append((f"{where}: lattice_posterior returns {h['post']} (norm {h['norm']}), the first call returned {d['Q']['post']} (norm {d['Q']['norm']})", True))
+            elif op[0] == "n":
+                exp = [b["score"] for b in d["B"]][:len(h.get("HN", []))]
+                if h.get("HN", [])[:len(exp)] != exp:
+                    viol.append((f"{where}: N-best scores {h.get('HN', [])[:8]} differ from the first read {exp[:8]}", True))
     return viol, mism
 
 
@@ -300,8 +353,41 @@ def eval_case(c, binp, audios, case, stats):
     return res, None
 
 
+HIST_OPS = ["b", "p", "p", "t1", "t3", "t7", "r1", "r2", "n2", "n5"]
+
+
+def gen_history(rng):
+    """a history of further lattice API calls (repeated and abandoned passes); `p` only where alphas are valid"""
+    ops = [rng.choice(HIST_OPS) for _ in range(rng.range(4, 9))]
+    # classes that must always be present: posterior twice in a row, bestpath right after an abandoned traversal
+    ops += ["p", "p", rng.choice(["t2", "t5"]), "b", "p", rng.choice(["r1", "r3"]), "p", "b"]
+    return ",".join(ops)
+
+
+# lattices on which more than MAX_PATHS partial paths are alive, N-best read to exhaustion
+DEEP_CASES = [
+    dict(grammar=None, kind="pizza", audio="pizza", cfg=[], cut=None, mids=[], beam="default", k=6000),
+    dict(grammar="#JSGF V1.0; grammar g; public <g> = (go | forward | ten | meters | tend | meet)+ ;", kind="loop", audio="goforward",
+         cfg=["beam=1e-60", "wbeam=1e-40", "pbeam=1e-60"], cut=None, mids=[], beam="wide", k=6000),
+]
+
+
+def deep_cases(rng, audios, n):
+    import os
+    res = []
+    for c0 in DEEP_CASES[:n]:
+        c1 = dict(c0)
+        if c1["grammar"] is None:
+            c1["grammar"] = (m.DATA / "pizza.gram").read_text()
+        c1["cut"] = os.path.getsize(audios[c1["audio"]]) // 2
+        c1["ops"] = gen_history(rng)
+        res.append(c1)
+    return res
+
+
 def gen_case(rng, audios):
     case = m.gen_case(rng, audios, k=rng.weighted([(8, 5), (40, 3), (150, 2)]))
+    case["ops"] = gen_history(rng)
     if rng.chance(0.25):
         # large lattices: wide beams and a loop grammar, long N-best prefix (agenda pressure)
         case["cfg"] = [o for o in case["cfg"] if "beam" not in o] + list(m.BEAMS["wide"])
@@ -326,7 +412,16 @@ def check(c):
     ncases = 22 if c.tier == "quick" else 700
     cases = [dict(x, _corpus=True) for x in m.load_corpus("C12")]
     ncorp = len(cases)
+    ndeep = len(cases)
+    cases += deep_cases(rng, audios, 2)
+    ndeep = len(cases) - ndeep
     cases += [gen_case(rng, audios) for _ in range(ncases)]
+    if c.tier == "thorough":
+        # more deep reads: the generated grammars with wide beams, whole audio, list read to exhaustion (cap 6000)
+        for _ in range(25):
+            cs = gen_case(rng, audios)
+            cs.update(cfg=[o for o in cs["cfg"] if "beam" not in o] + list(m.BEAMS["wide"]), beam="wide", k=6000, mids=[])
+            cases.append(cs)
     nlat, distinct, viols, nmism, harness_ok = 0, set(), [], 0, True
     for ci, case in enumerate(cases):
         res, fail = eval_case(c, binp, audios, case, stats)
@@ -384,6 +479,10 @@ def check(c):
     c.oblige("correspondence: traverseEdges / bestpath score / remTable / nbest of the model = lattice_traverse_edges / lattice_bestpath / best_rem_score / "
              "decoder_nbest on every dumped lattice", nmism == 0, f"{nmism} mismatches")
     c.oblige("every harness run finished without sanitizer report, assert or leak", harness_ok)
+    if harness_ok:
+        c.oblige("the deep N-best cases reached more than MAX_PATHS live partial paths on the real code and were read to exhaustion "
+                 "(agenda truncation branch exercised)", stats.get("nbest:exhausted-lists-where-MAX_PATHS-truncation-dropped-results", 0) >= 1
+                 and stats.get("nbest:largest-agenda-on-the-real-code", 0) > 500, {k: v for k, v in stats.items() if k.startswith("nbest")})
     c.cov.update({"evaluations": nlat, "distinct_nontrivial": len(distinct),
                   "rule": "one evaluation = one lattice request with N-best, best path and posteriors; non-trivial = a lattice was returned; "
                           "distinct by (grammar, audio, config, frame count)",
